@@ -21,13 +21,16 @@ def sym_sequence(I, N, alphabet=AA, prefix="c"):
     for i in range(N):
         v, fd, dom = sym_char("%s%d" % (prefix, i), alphabet)
         I.solver.add(dom)
+        I.domains["%s%d" % (prefix, i)] = (v, len(alphabet))
+        # valid fact: exactly one per-value atom is 1 (class counts are linear combinations of these atoms)
+        I.solver.add(z3.Sum([z3.If(v == k, 1, 0) for k in range(len(alphabet))]) == 1)
         vs.append(v)
         chars.append(fd)
     return vs, SymStr(chars)
 
 
 def in_set(v, letters, alphabet=AA):
-    ix = [alphabet.index(a) for a in letters if a in alphabet]
+    ix = sorted(alphabet.index(a) for a in letters if a in alphabet)
     if not ix:
         return z3.BoolVal(False)
     return z3.Or(*[v == i for i in ix]) if len(ix) > 1 else v == ix[0]
@@ -41,15 +44,44 @@ def is_neg(v):
     return in_set(v, T.NEG)
 
 
+def _lin(c):
+    """If(c,1,0) for a guard of the form Or(v == k ...) / v == k written over the per-value atoms If(v == k, 1, 0)"""
+    from symx.interp import lin_indicator
+    try:
+        if z3.is_app(c) and c.decl().kind() == z3.Z3_OP_OR:
+            parts = c.children()
+        else:
+            parts = [c]
+        var = None
+        vals = []
+        for p_ in parts:
+            if not (z3.is_app(p_) and p_.decl().kind() == z3.Z3_OP_EQ and z3.is_int_value(p_.arg(1)) and z3.is_const(p_.arg(0))):
+                return z3.If(c, 1, 0)
+            if var is None:
+                var = p_.arg(0)
+            elif not var.eq(p_.arg(0)):
+                return z3.If(c, 1, 0)
+            vals.append(p_.arg(1).as_long())
+        if var is None or str(var)[:1] != "c" or not str(var)[1:].isdigit():
+            return z3.If(c, 1, 0)
+        return lin_indicator(var, len(AA), vals)
+    except Exception:
+        return z3.If(c, 1, 0)
+
+
 def count(conds):
     conds = list(conds)
     if not conds:
         return z3.IntVal(0)
-    return z3.Sum([z3.If(c, 1, 0) for c in conds]) if len(conds) > 1 else z3.If(conds[0], 1, 0)
+    ts = [_lin(c) for c in conds]
+    return z3.Sum(ts) if len(ts) > 1 else ts[0]
 
 
 def composition(vs, npos, nneg):
-    return z3.And(count(is_pos(v) for v in vs) == npos, count(is_neg(v) for v in vs) == nneg)
+    """composition constraint with the oracle's classes, plus the (valid, redundant) per-position partition facts
+    pos_i + neg_i + neut_i == 1 and the neutral count, which spare the solver a case split per position"""
+    return z3.And(count(is_pos(v) for v in vs) == npos, count(is_neg(v) for v in vs) == nneg,
+                  count(in_set(v, T.NEUT) for v in vs) == len(vs) - npos - nneg)
 
 
 def seq_of_model(m, vs, alphabet=AA):
@@ -482,3 +514,41 @@ def prove_via_lemmas(ob, claim, lemmas, label, cex):
             return True
         res["notes"].append("lemma combination not unsat (%s) for %s; monolithic query used" % (r, label))
     return ob.prove(claim, label, cex)
+
+
+# ---------------------------------------------------------------------------
+# history prelude: a fixed series of native API calls on *other* objects, run before the symbolic execution of an item
+# so that state shared between objects (module-level caches, mutated tables, shared default arguments) is in a used state.
+# The prelude is a function of (N, a, b) only and is recorded in every counterexample so that replays re-run it.
+# ---------------------------------------------------------------------------
+def std_prelude(N, a=None, b=None):
+    if a is None:
+        a, b = max(1, N // 3), max(0, N // 4)
+        a, b = min(a, N), min(b, max(0, N - a))
+    n0 = N - a - b
+    seqs = []
+    for extra in (2, 9):
+        seqs.append("K" * a + "E" * b + "G" * (n0 + extra))                      # same charge counts, other lengths
+    seqs.append(("R" * a + "D" * b + "S" * n0)[::-1])                             # same composition and length, other spelling/arrangement
+    seqs.append("D" * a + "K" * b + "A" * n0)                                     # charge-inverted composition
+    seqs += ["KEKEKEGGSPQRD", "MSTYPLLW"]
+    return [q for q in seqs if q]
+
+
+PRELUDE_CALLS = [("get_delta", ()), ("get_kappa", ()), ("get_deltaMax", (True,)), ("get_SCD", ()), ("get_Omega", ()), ("get_phasePlotRegion", ()),
+                 ("get_mean_hydropathy", ()), ("get_linear_NCPR", (1,)), ("get_linear_FCR", (1,)), ("get_linear_sigma", (1,)),
+                 ("get_reduced_alphabet_sequence", (8,)), ("get_linear_sequence_composition", (1,)), ("get_isoelectric_point", ())]
+
+
+def run_prelude(seqs):
+    from localcider.sequenceParameters import SequenceParameters
+    for q in seqs or []:
+        try:
+            sp = SequenceParameters(q)
+        except Exception:
+            continue
+        for name, args in PRELUDE_CALLS:
+            try:
+                getattr(sp, name)(*args)
+            except Exception:
+                pass
